@@ -262,6 +262,17 @@ pub struct Policy {
     pub seed: u64,
     #[serde(default)]
     pub depth: u32,
+    /// true: the running worker is never preempted at compute-level yield points (formatting
+    /// stages, line-search iterations, lexer dispatch), only at I/O operations and item
+    /// boundaries; this concentrates the exploration on I/O-level windows, which would otherwise
+    /// be diluted by the thousands of compute-level yield points of one formatting call
+    #[serde(default)]
+    pub io_only: bool,
+    /// PCT: the number of policy decisions over which the change points are spread (0 = a rough
+    /// estimate from the batch size; follow-up schedules of a case use the number measured in
+    /// its first run)
+    #[serde(default)]
+    pub horizon: u64,
 }
 
 impl Default for Policy {
@@ -270,6 +281,8 @@ impl Default for Policy {
             kind: PolicyKind::Sequential,
             seed: 0,
             depth: 0,
+            io_only: false,
+            horizon: 0,
         }
     }
 }
@@ -434,6 +447,9 @@ pub struct RunResult {
     /// never part of a verdict or a digest)
     #[serde(default)]
     pub wall_ms: u64,
+    /// scheduling decisions taken at I/O operations and item boundaries
+    #[serde(default)]
+    pub policy_decisions: u64,
 }
 
 impl RunResult {
@@ -459,6 +475,7 @@ impl RunResult {
             pure_out: None,
             items: (0, 0),
             wall_ms: 0,
+            policy_decisions: 0,
         }
     }
 
